@@ -441,6 +441,12 @@ class Stats:
 
 
 def jsonable(x):
+    if isinstance(x, str):
+        try:
+            x.encode("utf-8")
+            return x
+        except UnicodeEncodeError:      # a file name that is not valid UTF-8, carried as surrogate escapes
+            return {"hex": x.encode("utf-8", "surrogateescape").hex()}
     if isinstance(x, bytes):
         try:
             return x.decode("utf-8")
